@@ -141,10 +141,18 @@ def run_all(v, hists, wd, tier, pid="C12", ls_after=("open", "write", "pwrite", 
 
     def one_bad(h):
         return wasi.run_history(exe, h["calls"], wd, h["id"] + "-bad", setup=h["setup"], ls_after=ls_after, bad_preopens=True)
-    results = pmap(one, hists) + pmap(one_tr, sub) + pmap(one_nat, sub2) + pmap(one_bad, sub3)
+    # ... and the host built in the configuration of a big-endian machine (forced on this one: every multi-byte value it stores into or
+    # reads from guest memory is byte-reversed, consistently with the accessors the driver uses for what it puts there): the same calls
+    # leave the same values, most significant byte first
+    exe_be = wasi.build_driver(wd, name="wasidrv-be", extra=("-DWASM_ENDIAN=1",))
+    sub4 = (hists[3::4] + [h_ for h_ in hists if h_.get("be") and h_ not in hists[3::4]]) if tier == "quick" else hists
+
+    def one_be(h):
+        return wasi.run_history(exe_be, h["calls"], wd, h["id"] + "-be", setup=h["setup"], ls_after=ls_after)
+    results = pmap(one, hists) + pmap(one_tr, sub) + pmap(one_nat, sub2) + pmap(one_bad, sub3) + pmap(one_be, sub4)
     distinct = set()
-    tags = [""] * len(hists) + ["-tr"] * len(sub) + ["-nat"] * len(sub2) + ["-bad"] * len(sub3)
-    for h, tag, (recs, index, err, rc, sb) in zip(list(hists) + list(sub) + list(sub2) + list(sub3), tags, results):
+    tags = [""] * len(hists) + ["-tr"] * len(sub) + ["-nat"] * len(sub2) + ["-bad"] * len(sub3) + ["-be"] * len(sub4)
+    for h, tag, (recs, index, err, rc, sb) in zip(list(hists) + list(sub) + list(sub2) + list(sub3) + list(sub4), tags, results):
         h2id = h["id"] + tag
         ns = len(h["setup"])
         by_i = {r["i"]: r for r in recs if "i" in r}
@@ -166,11 +174,11 @@ def run_all(v, hists, wd, tier, pid="C12", ls_after=("open", "write", "pwrite", 
                 if c["call"] in ("tell", "read", "pread", "filestat", "pathstat", "readlink", "fdstat", "readdir", "sync", "datasync", "prestat", "prestatname"):
                     continue             # the model leaves this call unspecified; it cannot have changed anything the model tracks
                 break                    # unspecified and possibly state-changing: the rest of the history is not comparable
-            why = wasi.compare_call(c, m, a, sb) if kind == "call" else wasi.compare_ls(m, a)
+            why = wasi.compare_call(c, m, a, sb, "big" if tag == "-be" else "little") if kind == "call" else wasi.compare_ls(m, a)
             compared += 1
             distinct.add(str(c) + str(m["errno"]))
             if why:
-                v.deviation(sig(c, why) if kind == "call" else "%s:host-files:%s" % (c["call"], "offset-above-32-bits" if c.get("offset", 0) >= 2 ** 32 else why.split(":")[0][:30]),
+                v.deviation((sig(c, why) + (":big-endian-host" if tag == "-be" else "")) if kind == "call" else "%s:host-files:%s" % (c["call"], "offset-above-32-bits" if c.get("offset", 0) >= 2 ** 32 else why.split(":")[0][:30]),
                             {"history": h["id"], "call_index": j, "call": c, "why": why, "calls_so_far": [x["call"] for x in h["calls"][:j + 1]]})
                 break      # later observations of this history depend on the state that already differs
         if not poisoned and rc != 0:
